@@ -1438,6 +1438,7 @@ func TestC20(t *testing.T) {
 	e.handlerSweep(t)
 	e.containSweep(t)
 	e.decoderSweep()
+	e.bech32Sweep()
 	e.feeSweep()
 	e.hostileAnte()
 	e.anteRawSweep(t)
